@@ -159,9 +159,12 @@ def run(ck, F):
         try:
             firsts = Sr.run(f['id'])
             allp = [(None, r) for r in firsts]
-            for st1, k1, _v1 in firsts:
-                if k1 == 'return':
-                    allp += [(st1, r) for r in Sr.run(f['id'], args=keyrule.qparams(len(f['params'])), state=st1.fork())]
+            # on a scope populated by any of the make_* functions (a decl-set may have been started by a sibling: a
+            # specialization seen before its primary template, a variable redeclared as a field, ...)
+            for g in makers:
+                for st1, k1, _v1 in (firsts if g is f else Sr.run(g['id'])):
+                    if k1 == 'return':
+                        allp += [(st1, r) for r in Sr.run(f['id'], args=keyrule.qparams(len(f['params'])), state=st1.fork())]
         except Unsupported as e:
             raise AnalysisBroken(f'{f["id"]}: outside the evaluator language: {e}')
         bad = []
